@@ -467,7 +467,7 @@ class Check:
         disagreements = []
         for j, i in enumerate(keep):
             c, r = cases[i], results[i]
-            st["outcome:" + str(r.get("outcome"))] += 1
+            st["outcome:" + re.sub(r"[0-9.]+", "#", str(r.get("outcome")).split("\n")[0])[:70]] += 1
             self.evaluations += 1
             if outs is not None:
                 exp = canon(c, r)
